@@ -23,6 +23,19 @@ def run(ctx, out):
             for j in range(len(a.trigger)):
                 ops.append(G.op_line(cfg, calls, G.script_str(cfg, None, {(0, j): "stall"})))
                 meta.append((cfg, calls, f"stall@{j}", 1))
+    # a terminal that falls silent at item j and stays silent at the same place of the retried exchange on every later connection:
+    # the retry budget of THAT exchange has to end the call
+    for calls, mx in HISTORIES:
+        cfg = G.default_cfg(max=mx, timeout=15)
+        a = baseline(spec, cfg, calls)
+        for j in range(len(a.trigger)):
+            start = max(s0 for s0 in a.exch_start if s0 <= a.trigger[j])
+            first = min(i for i in range(len(a.trigger)) if a.trigger[i] >= start)
+            off = j - first
+            hs = 0 if a.exch_start.index(start) < 2 and j < 4 else 4       # the first two exchanges of connection 0 are the handshake itself
+            faults = {(0, j): "stall"} | {(k, hs + off): "stall" for k in range(1, 1500)}
+            ops.append(G.op_line(cfg, calls, G.script_str(cfg, None, faults)))
+            meta.append((cfg, calls, f"persistent-stall@{j}", 1500))
     # stalls while connecting / registering on several consecutive connections, and a terminal that is mute for ever
     for t in timeouts:
         cfg = G.default_cfg(timeout=t)
@@ -55,7 +68,7 @@ def run(ctx, out):
         # the time-out never collapses to zero: a stalled read_card exchange costs at least 2 virtual seconds per attempt
         if kd.startswith("stall@") and "readcard" in calls and results[-1][1] == 0 and cfg["timeout"] >= 0:
             pass
-    out.rule = ("a stall (terminal silent, connection open) at EVERY item of every exchange of 5 call histories (handshake included) x read_card_timeout in {0,1,15,253,254,255} (thorough: 0..255); stalled connects, "
+    out.rule = ("a stall (terminal silent, connection open) at EVERY item of every exchange of 5 call histories (handshake included) x read_card_timeout in {0,1,15,253,254,255} (thorough: 0..255); the same with the terminal silent at that place of the retried exchange on all 1500 later connections (a client without a retry budget then needs more than the one-virtual-day watchdog) (the retry budget of each exchange must end the call); stalled connects, "
                 "stalls during registration on consecutive connections, a terminal that is mute for ever (70 connections). Oracle: every call returns (no hang under a one-virtual-day watchdog, no panic) within "
                 "6 x 20 x (60 + 2 + 5 x max(60, timeout+2)) virtual seconds; implementation = model EXACTLY in results, traffic and virtual time stamps (so a time-out that overflowed or collapsed to 0 would show)")
     out.samples = [ops[7][:400], {"op": ops[-1][:300], "impl": impl[-1][:300]}]
